@@ -458,11 +458,14 @@ def gen_lease(rng, knobs=None):
             prog.append(['advance', rng.choice([10, 100, 400, 600, 1100, 2000])])
             prog.append(['pump'])
         elif k.get('lease_cancel'):
-            prog.append([rng.choice(['fut_cancel', 'cancel', 'request_n'])] + ([rng.randrange(8)] if True else []))
+            # the application acts on an interaction whose request may still be waiting for a lease
+            prog.append([rng.choice(['fut_cancel', 'cancel', 'request_n'])] + [rng.randrange(8)])
             if prog[-1][0] == 'cancel':
                 prog[-1] += ['req']
             elif prog[-1][0] == 'request_n':
                 prog[-1] += ['req', 2]
+            if rng.random() < 0.5:
+                prog.append(['pump'])
         else:
             prog.append(['pump'])
     prog.append(['finish'])
